@@ -20,6 +20,9 @@ extern vk_t vk_pool[64];
 extern int vk_n;
 
 int vk_load(void);
+extern vk_t vk_extra[16];
+extern int vk_extra_n;
+int vk_load_extra(void);   /* keys/extra: EC keys on curves outside JOSE */
 vk_t *vk_get(const char *name);
 /* JWK text (malloc) of a pool key with optional extra members */
 char *vk_jwk_text(const vk_t *k, int priv, const char *alg, const char *kid);
